@@ -52,10 +52,17 @@ type c09Cfg struct {
 	Merge  string // none accept veto-host veto-initiator
 	Join   bool
 	AX, BX xstate
+	// Earlier: "" | left-other-port | left-other-ip: the host remembers the joiner's NAME from an
+	// earlier life (higher incarnation, other address) that ended with a graceful leave
+	Earlier string `json:",omitempty"`
 }
 
 func (c c09Cfg) String() string {
-	return fmt.Sprintf("[%v] merge=%s join=%v a:x=%v b:x=%v", c.L, c.Merge, c.Join, c.AX, c.BX)
+	e := ""
+	if c.Earlier != "" {
+		e = " host-remembers-joiner:" + c.Earlier
+	}
+	return fmt.Sprintf("[%v] merge=%s join=%v a:x=%v b:x=%v%s", c.L, c.Merge, c.Join, c.AX, c.BX, e)
 }
 
 func listed(n *node, name string) bool {
@@ -112,6 +119,16 @@ func newC09World(b *bubble, c c09Cfg, diffKeys bool, diffLabel bool) *c09World {
 	w.a.D.Local, w.bn.D.Local = []byte("a-user-state"), []byte("b-user-state")
 	applyX(w.a, c.AX)
 	applyX(w.bn, c.BX)
+	if c.Earlier != "" {
+		ip, port := net.IP(ip4(1)), uint16(7000)
+		if c.Earlier == "left-other-ip" {
+			ip, port = ip4(77), 7946
+		}
+		v := w.a.Cfg.BuildVsnArray()
+		w.bn.M.VAliveNode(&ml.VAlive{Incarnation: 5, Node: w.a.Name, Addr: ip, Port: port, Vsn: v}, nil, false)
+		w.bn.M.VDeadNode(&ml.VDead{Incarnation: 5, Node: w.a.Name, From: w.a.Name})
+		advance(time.Microsecond)
+	}
 	w.p.drainQueues()
 	return w
 }
@@ -600,7 +617,7 @@ func TestC09(t *testing.T) {
 						if !mine(idx) {
 							continue
 						}
-						c := c09Cfg{l, mg, join, ax, bx}
+						c := c09Cfg{L: l, Merge: mg, Join: join, AX: ax, BX: bx}
 						journal("C09 intact %v", c)
 						rep.Evaluations++
 						runC09Intact(t, c, rep)
@@ -609,12 +626,30 @@ func TestC09(t *testing.T) {
 			}
 		}
 	}
+	// ---- (1b) the joiner's name is remembered by the host from an earlier life that left gracefully
+	for li, l := range lats {
+		if li > 1 {
+			break
+		}
+		for _, earlier := range []string{"left-other-port", "left-other-ip"} {
+			for _, join := range []bool{true, false} {
+				idx++
+				if !mine(idx) {
+					continue
+				}
+				c := c09Cfg{L: l, Merge: "none", Join: join, AX: axs[0], BX: bxs[0], Earlier: earlier}
+				journal("C09 intact %v", c)
+				rep.Evaluations++
+				runC09Intact(t, c, rep)
+			}
+		}
+	}
 	// ---- (2) cuts
 	cutCfgs := []c09Cfg{
-		{lat{Enc: "off", Comp: false, Label: "", IPNames: true}, "none", true, xstate{"alive", 3}, xstate{"dead", 3}},
-		{lat{Enc: "v1", KeyLen: 16, Comp: true, Label: "label", IPNames: true}, "accept", true, xstate{"none", 0}, xstate{"alive", 5}},
-		{lat{Enc: "v0", KeyLen: 32, Comp: false, Label: "label", IPNames: true}, "none", false, xstate{"left", 3}, xstate{"alive", 3}},
-		{lat{Enc: "off", Comp: true, Label: strings.Repeat("z", 255), IPNames: true}, "none", true, xstate{"dead", 3}, xstate{"none", 0}},
+		{L: lat{Enc: "off", Comp: false, Label: "", IPNames: true}, Merge: "none", Join: true, AX: xstate{"alive", 3}, BX: xstate{"dead", 3}},
+		{L: lat{Enc: "v1", KeyLen: 16, Comp: true, Label: "label", IPNames: true}, Merge: "accept", Join: true, AX: xstate{"none", 0}, BX: xstate{"alive", 5}},
+		{L: lat{Enc: "v0", KeyLen: 32, Comp: false, Label: "label", IPNames: true}, Merge: "none", Join: false, AX: xstate{"left", 3}, BX: xstate{"alive", 3}},
+		{L: lat{Enc: "off", Comp: true, Label: strings.Repeat("z", 255), IPNames: true}, Merge: "none", Join: true, AX: xstate{"dead", 3}, BX: xstate{"none", 0}},
 	}
 	for ci, c := range cutCfgs {
 		if !thorough() && ci >= 3 {
@@ -646,9 +681,9 @@ func TestC09(t *testing.T) {
 	}
 	// ---- (3) authentication
 	for _, c := range []c09Cfg{
-		{lat{Enc: "v1", KeyLen: 16, Label: "label", IPNames: true}, "none", true, xstate{"alive", 3}, xstate{"alive", 5}},
-		{lat{Enc: "v0", KeyLen: 32, Comp: true, IPNames: true}, "none", false, xstate{"none", 0}, xstate{"dead", 3}},
-		{lat{Enc: "off", Label: "label", IPNames: true}, "none", true, xstate{"alive", 3}, xstate{"none", 0}},
+		{L: lat{Enc: "v1", KeyLen: 16, Label: "label", IPNames: true}, Merge: "none", Join: true, AX: xstate{"alive", 3}, BX: xstate{"alive", 5}},
+		{L: lat{Enc: "v0", KeyLen: 32, Comp: true, IPNames: true}, Merge: "none", Join: false, AX: xstate{"none", 0}, BX: xstate{"dead", 3}},
+		{L: lat{Enc: "off", Label: "label", IPNames: true}, Merge: "none", Join: true, AX: xstate{"alive", 3}, BX: xstate{"none", 0}},
 	} {
 		for _, kind := range []string{"wrong-key", "wrong-label"} {
 			if kind == "wrong-key" && c.L.Enc == "off" {
@@ -683,7 +718,7 @@ func TestC09(t *testing.T) {
 	}
 	runTSet(t, rep, tscs, tb, 13000)
 	rep.Distinct = rep.Evaluations
-	rep.Sample(map[string]any{"intact": c09Cfg{lats[4], "veto-host", true, axs[1], bxs[3]}.String(), "cut": "request cut at byte 41 then stall; reply cut at byte 7 then close"})
+	rep.Sample(map[string]any{"intact": c09Cfg{L: lats[4], Merge: "veto-host", Join: true, AX: axs[1], BX: bxs[3]}.String(), "cut": "request cut at byte 41 then stall; reply cut at byte 7 then close"})
 }
 
 // runC09HostileHost: the harness answers a real initiator's Join with a crafted
